@@ -20,6 +20,7 @@ class Check:
     rule = ""
     constants = ""
     max_report = 5
+    extra_whys = ()       # verdict classes of the specification beyond the listed property: counted, never a VIOLATION
     level_text = ""
     level_note = ""
     technique = "TLA+ specification as oracle; TLC trace validation of recorded executions of the real code"
@@ -122,7 +123,11 @@ def run_check(check, tier, seed, replay=None):
         t2 = time.time()
         bad, stats = check.validate(evgroups, pid)
         log('[%s] gen+build %.1fs, record %.1fs, validate %.1fs' % (pid, t1 - t0, t2 - t1, time.time() - t2))
-        bad = check.filter_bad(bad)
+        extra = [b for b in bad if b.get("why") in check.extra_whys]
+        bad = [b for b in check.filter_bad(bad) if b.get("why") not in check.extra_whys]
+        if extra:
+            log("[%s] NOTE: %d events disagree with parts of the specification beyond this property (%s), e.g. %s" %
+                (pid, len(extra), sorted({b["why"] for b in extra}), core.trim(extra[0], 300)))
         # design-level model checking (the specification's own invariants)
         mcstats = {"states": 0, "distinct": 0}
         mcruns = []
@@ -183,6 +188,8 @@ def run_check(check, tier, seed, replay=None):
             "trace_states": stats["distinct"],
             "model_checking_runs": mcruns,
             "failing_events": len(bad),
+            "beyond_property": {"judged_classes": sorted(check.extra_whys), "disagreeing_events": len(extra),
+                                "example": core.trim(extra[0], 400) if extra else ""},
             "known_findings_hit": sorted(known.keys()),
             "trusted_base": check.trusted,
             "exhaustive": bool(getattr(check, "exhaustive", False)),
